@@ -25,6 +25,9 @@ Definition xbytes (x : xi) : option (list Z) :=
   | XJccRel code off => Some ([15; code] ++ le_bytes 4 (off mod 2 ^ 32))
   | XJmpPc t => Some (233 :: le_bytes 4 0)
   | XJccPc code t => Some ([15; code] ++ le_bytes 4 0)
+  | XAluI8 w op ext rm imm => Some (x_alu w op ext rm ++ [imm mod 256])
+  | XOpSize => Some [102]
+  | XBswap w r => Some (x_basic_rex w 0 r ++ [15; 200 + lo r])
   | _ => None
   end.
 Definition xsize (x : xi) : option Z := option_map (fun b => Z.of_nat (length b)) (xbytes x).
@@ -77,6 +80,15 @@ Definition mul_div (w ext rm : Z) (R : regs) : option regs :=
          if 2 ^ W <=? n / b then None else Some (rset (rset R 0 (n / b)) 2 (n mod b))
   else None.
 
+(** ROL r/m16, imm8 (66 C1 /0 ib): the low 16 bits are rotated, the rest of the register is left as it is (16-bit
+    operand size); the count is masked to 5 bits, then taken modulo 16 *)
+Definition rol16 (v c : Z) : Z :=
+  let lo16 := v mod 2 ^ 16 in
+  let k := (c mod 32) mod 16 in
+  (v - lo16) + ((lo16 * 2 ^ k) mod 2 ^ 16 + lo16 / 2 ^ (16 - k)) mod 2 ^ 16.
+(** BSWAP: the bytes of the 32- or 64-bit register reversed; the 32-bit form clears the upper half *)
+Definition bswapv (W v : Z) : Z := of_le_bytes (rev (le_bytes (Z.to_nat (W / 8)) (v mod 2 ^ W))).
+
 Definition keeps_flags (x : xi) : bool :=
   match x with
   | XAlu _ op _ _ => op =? 0x89
@@ -98,6 +110,13 @@ Definition sstep (rec : list xi -> xst -> option xout) (l : list xi) (s : xst) :
         then rec (XAlu 1 op reg rm :: l'') s else None
       | _ => None
       end
+    | XOpSize =>
+      match l' with
+      | XAluI8 0 0xc1 0 rm imm :: l'' =>
+        rec l'' {| x_r := rset (x_r s) rm (rol16 (x_r s rm) (imm mod 256)); x_stk := x_stk s; x_fl := None |}
+      | _ => None
+      end
+    | XBswap w r => rec l' {| x_r := rset (x_r s) r (bswapv (opw w) (x_r s r)); x_stk := x_stk s; x_fl := x_fl s |}
     | XPush r => rec l' {| x_r := x_r s; x_stk := x_r s r :: x_stk s; x_fl := x_fl s |}
     | XPop r =>
       match x_stk s with
